@@ -58,8 +58,17 @@ def surface_position(
     lat_odd_s = lat_odd_n - 90
 
     # chose which solution corrispondes to receiver location
-    lat_even = lat_even_n if lat_ref > 0 else lat_even_s
-    lat_odd = lat_odd_n if lat_ref > 0 else lat_odd_s
+    # (the one closest to the receiver, which may be on the other side of the equator)
+    lat_even = (
+        lat_even_n
+        if abs(lat_ref - lat_even_n) <= abs(lat_ref - lat_even_s)
+        else lat_even_s
+    )
+    lat_odd = (
+        lat_odd_n
+        if abs(lat_ref - lat_odd_n) <= abs(lat_ref - lat_odd_s)
+        else lat_odd_s
+    )
 
     # check if both are in the same latidude zone, rare but possible
     if common.cprNL(lat_even) != common.cprNL(lat_odd):
